@@ -311,7 +311,7 @@ pub fn check(s: &'static dyn Proto, c: &Case, st: &mut Stats, _k: &KnownFindings
 
 pub const BUDGET: Budget = Budget {
     quick: (12, 12, 6),
-    thorough: (120, 120, 60),
+    thorough: (300, 300, 150),
     shrink: 12,
 };
 
